@@ -172,7 +172,7 @@ Definition check_1002 (fs : list field) : verdict :=
                   match decode_top sc root outb with Some mo => msg_eqv mo m0 | None => false end in
       if good then
         (if negb (rec =? 1) then VOk
-         else match coded_load_marshal sc root b0 with
+         else match coded_load_marshal cur_fixes sc root b0 with
               | EOk o => if bytes_eqb o outb then VOk else VDrift 2
               | _ => VDrift 2
               end)
